@@ -20,6 +20,9 @@ type Topo struct {
 	// Stats: a do-nothing stats.Handler is installed on the server and on every client connection (configuration
 	// dimension: several code paths in goat only run when a stats handler is present)
 	Stats bool `json:"stats,omitempty"`
+	// Intercept: pass-through unary and stream interceptors are installed on the server and on every client connection
+	// (only for tests that install none of their own)
+	Intercept bool `json:"intercept,omitempty"`
 }
 
 func (t Topo) String() string {
@@ -69,6 +72,11 @@ func NewWorld(topo Topo, svc *Svc, sopts []goat.ServerOption, dopts []goat.DialO
 	if topo.Stats {
 		sopts = append(append([]goat.ServerOption{}, sopts...), goat.StatsHandler(NopStats{}))
 		dopts = append(append([]goat.DialOption{}, dopts...), goat.WithStatsHandler(NopStats{}))
+	}
+	if topo.Intercept {
+		so, do := PassThroughInterceptors()
+		sopts = append(append([]goat.ServerOption{}, sopts...), so...)
+		dopts = append(append([]goat.DialOption{}, dopts...), do...)
 	}
 	w := &World{Topo: topo, Tap: NewTap(), ServeErrs: map[string]error{}, ServeDone: map[string]bool{}}
 	w.ctx, w.cancel = context.WithCancel(context.Background())
@@ -210,3 +218,24 @@ func (NopStats) TagRPC(ctx context.Context, _ *stats.RPCTagInfo) context.Context
 func (NopStats) HandleRPC(context.Context, stats.RPCStats)                         {}
 func (NopStats) TagConn(ctx context.Context, _ *stats.ConnTagInfo) context.Context { return ctx }
 func (NopStats) HandleConn(context.Context, stats.ConnStats)                       {}
+
+// PassThroughInterceptors returns server and client options installing interceptors that change nothing.
+func PassThroughInterceptors() ([]goat.ServerOption, []goat.DialOption) {
+	so := []goat.ServerOption{
+		goat.UnaryInterceptor(func(ctx context.Context, req any, _ *grpc.UnaryServerInfo, h grpc.UnaryHandler) (any, error) {
+			return h(ctx, req)
+		}),
+		goat.StreamInterceptor(func(srv any, ss grpc.ServerStream, _ *grpc.StreamServerInfo, h grpc.StreamHandler) error {
+			return h(srv, ss)
+		}),
+	}
+	do := []goat.DialOption{
+		goat.WithUnaryInterceptor(func(ctx context.Context, m string, req, reply any, cc *grpc.ClientConn, inv grpc.UnaryInvoker, opts ...grpc.CallOption) error {
+			return inv(ctx, m, req, reply, cc, opts...)
+		}),
+		goat.WithStreamInterceptor(func(ctx context.Context, d *grpc.StreamDesc, cc *grpc.ClientConn, m string, st grpc.Streamer, opts ...grpc.CallOption) (grpc.ClientStream, error) {
+			return st(ctx, d, cc, m, opts...)
+		}),
+	}
+	return so, do
+}
